@@ -304,7 +304,7 @@ pub fn mutate(r: &mut Rng, b: &[u8], is_table: bool) -> (Vec<u8>, &'static str) 
             v[0..4].copy_from_slice(&l.to_le_bytes());
             (v, "extend+fix-total")
         }
-        13 | 14 if is_table && b.len() >= 4 && rd32(b) as usize == b.len() && (b.len() == 4 || (rd32(&b[4..]) as usize) <= b.len() && rd32(&b[4..]) >= 8 && rd32(&b[4..]) % 4 == 0) => {
+        13 | 14 if is_table && b.len() >= 4 && rd32(b) as usize == b.len() && (b.len() == 4 || (b.len() >= 8 && (rd32(&b[4..]) as usize) <= b.len() && rd32(&b[4..]) >= 8 && rd32(&b[4..]) % 4 == 0 && table_offsets_ok(b))) => {
             let n = r.below(6) as usize;
             let extra: Vec<u8> = (0..n).map(|_| r.below(256) as u8).collect();
             (add_extra_field(b, &extra), "extra-table-field")
@@ -326,3 +326,9 @@ pub fn mutate(r: &mut Rng, b: &[u8], is_table: bool) -> (Vec<u8>, &'static str) 
     }
 }
 
+
+/// all offsets of the table header are inside the slice (so that add_extra_field can re-base them)
+pub fn table_offsets_ok(b: &[u8]) -> bool {
+    let off1 = rd32(&b[4..]) as usize;
+    (1..off1 / 4).all(|i| (rd32(&b[4 * i..]) as usize) <= b.len())
+}
